@@ -65,6 +65,10 @@ CHECKS["C16"] = dict(cat="model_checking", design="DESIGN.md §4 C16",
    text="Directives.tla defines the expansion of comment directives on token sequences (enum placeholders to SQL literals, REFERENCES, whole-word table names, ALTER TABLE owner prefix, select keys dropped, query placeholders numbered by first occurrence with arguments typed like the compared field). DirectivesModel.tla enumerates model files (constraint and query templates x owner struct x single / grouped declaration), TLC checks that the expansion leaves no placeholder and exports the cases; each is rendered as a real model file, the real SQL and CRUD generators run, their custom statements (SQL lexer) and query functions (go/ast) are extracted as token sequences and TraceDirectives.tla requires bag equality with the expansion.",
    note="Trusted: TLC; the SQL lexer shared by both sides; go/ast. Exactness property: the expected token sequences are the property's own definition. Templates are a fixed set (10 constraints, 3 queries); occurrences of a table name inside a string literal are left out as ambiguous.",
    tech="TLA+ token-level definition of the directive expansion (Directives.tla), TLC-enumerated model files (DirectivesModel.tla) + verdict-style trace validation (TraceDirectives.tla) of the parsed real SQL / CRUD output")
+CHECKS["C01"] = dict(cat="model_checking", design="DESIGN.md §4 C01",
+   text="Seeded random full-feature packages, single-field-kind packages, SQL model files covering the TLC-exported column universe of PgDDLModel.tla and fixed witnesses are run through the three real Go generators (sqlcrud with generate-sets off and on); every accepted output goes through the import fixing pass and is type-checked by go/types inside its source package (lib/pq resolved to a stand-in with the same API). TraceGoIdents.tla applies the acceptance rule (refusal with a diagnostic is allowed, a crash is not) and the identifier-level invariants (no identifier declared twice, none clashing with the package) before the type errors. GoIdents.tla models the identifiers gounions derives and TLC shows them clash-free outside the recorded class.",
+   note="The typing judgment is go/types' and the import fixing is x/tools/imports: TLA+ contributes the input universe (column kinds), the acceptance bookkeeping and the identifier model, not a Go type checker. Inputs are sampled; each accepted (package, generator) pair reports its first error only.",
+   tech="go/types type-checking of real generator output inside TLC-exported / seeded source packages, judged by a TLA+ trace spec (TraceGoIdents.tla); TLA+ model of derived identifiers (GoIdents.tla) checked by TLC")
 NOT_APPLICABLE = {}
 ALL = ["C%02d" % i for i in range(1, 21)]
 
